@@ -80,6 +80,17 @@ CHECKS = {
    text="TLC proves W W^-1 = I, |det W| = product of the diagonal parameters, orthogonality of Householder products and usability / pairwise cancellation of the initial Householder vectors for feature counts 1..3 and counts up to 7 (9). Each state is loaded into the real class (pre-images of softplus / exp, integer Householder vectors also rescaled by 1e-4 and 1e3): weight(), weight_inverse(), logabsdet(), the two combined accessors, matrix(), forward and inverse must be mutually consistent (self-checking) and equal to the exact model; default and random initialisations for 1..4 features must be finite and invertible.",
    design_ref="DESIGN.md section 4, C11",
    note="Feature counts <= 3 on the lattice (cofactor determinant); float64. " + TRUSTED),
+
+ "C01": dict(
+   technique="Exact rational TLA+ models (spec/Spline.tla, LinAlg.tla) and the log-det aggregation model (spec/Xform.tla over Tensor.tla) model-checked by TLC; lattice cases replayed on the real code with the exact derivative as expected value (finite-difference adjudication); supplementary autograd sweep of the zoo",
+   text="TLC proves on the exact models that the reported derivative IS the derivative of the reported map (exact secant / Simpson / quotient identities per spline family), that |det W| is the product of the diagonal parameters, and computes the multiplicity of every parameter term in a per-item log-det (h*w per channel, once per pixel, broadcast scale shapes, temperature per element). Replay: spline lattice logabsdet vs log of the exact derivative; linear states (cache off, and on after an inverse-first history) vs exact log|det W|; aggregation states on real layers with prime-valued parameters so the sum identifies each multiplicity; autograd Jacobians of every zoo transform at generic float64 points (supplementary, outside the family).",
+   design_ref="DESIGN.md section 4, C01",
+   note="Scalar derivatives of transcendental maps are stated facts; the autograd sweep uses torch autograd as oracle and skips UMNN (numerical quadrature); BatchNorm in evaluation mode only. " + TRUSTED),
+ "C02": dict(
+   technique="Exact rational TLA+ models (Spline.tla: injective on the lattice, inverse specified relationally; LinAlg.tla: W W^-1 = I) model-checked by TLC; exact images of lattice points fed to the real inverses; round trips of LinAlg states and of every zoo transform (perturbed, fresh, exactly-zero parameters)",
+   text="The specification gives, for every lattice point x of every parameter set (including degenerate ones: equal weights, equal knot heights, locally linear cubic segments, one bin), the exact image y = F(x); the real inverse on y must return x (error scaled by the exact local derivative), a finite negated log-det, and the round trip must close. LinAlg states are replayed on the real classes with Householder vectors of different and rescaled norms. Every invertible zoo transform is round-tripped in both orders in float64 with perturbed, freshly constructed and exactly-zero parameters.",
+   design_ref="DESIGN.md section 4, C02",
+   note="Tolerances are the implementation's declared constants on the paths that use them; off-lattice floating-point cancellation is only sampled by the zoo sweep. " + TRUSTED),
 }
 REASONS = {}
 
